@@ -1,5 +1,6 @@
 import GdcVerif.GoPrelude
 import GdcVerif.Gen.J2kQuant
+import GdcVerif.Gen.J2kQuantT2
 /-!
   Hand model of the integer layers of the JPEG 2000 irreversible quantisation path
   (/repo/jpeg2000/quantization.go, encoder.go, t2/tile_decoder.go, decoder.go).
@@ -104,14 +105,23 @@ end J2kQuant
   `Encoder.applyQuantizationBySubbandFloat` / `TileDecoder.applyDequantizationBySubbandFloat` walk the bands with a
   counter: `subbandIdx := 0; (LL) …; subbandIdx++; for res := 1..numLevels { for each band b of res { if
   subbandIdx < len(steps) && b.width > 0 && b.height > 0 { (de)quantise with steps[subbandIdx] }; subbandIdx++ } }`.
-  The counter advances for EVERY band, empty or not.  `stepWalk L` lists (res, band, index used).
+  The counter advances for EVERY band, empty or not.  `stepWalk L` lists (res, band, index used); the counter
+  update is the GENERATED loop body (go2lean loop mode with `slice: [subbandIdx]`), so an edit that makes the
+  increment conditional or skips it changes / breaks the generated kernel.
 -/
 namespace J2kQuant
 
-def resLoop : Nat → Nat → Nat → List (Nat × Nat × Nat)
+/-- the inner `for _, b := range bands` loop, its counter advanced by `step` = the GENERATED (sliced) loop body -/
+def resLoopWith (step : Int → Int) : Nat → Nat → Int → List (Nat × Nat × Int)
   | 0, _, _ => []
-  | n + 1, res, idx => (res, 1, idx) :: (res, 2, idx + 1) :: (res, 3, idx + 2) :: resLoop n (res + 1) (idx + 3)
+  | n + 1, res, idx =>
+    (res, 1, idx) :: (res, 2, step idx) :: (res, 3, step (step idx)) :: resLoopWith step n (res + 1) (step (step (step idx)))
 
-def stepWalk (numLevels : Nat) : List (Nat × Nat × Nat) := (0, 0, 0) :: resLoop numLevels 1 1
+/-- encoder: Gen.J2kQuant.bandWalkStep = body of the band loop of applyQuantizationBySubbandFloat sliced on `subbandIdx` -/
+def stepWalk (numLevels : Nat) : List (Nat × Nat × Int) :=
+  (0, 0, 0) :: resLoopWith (fun i => Gen.J2kQuant.bandWalkStep 0 0 0 0 i 0) numLevels 1 1
+/-- decoder: Gen.J2kQuantT2.bandWalkStep = body of the band loop of applyDequantizationBySubbandFloat -/
+def stepWalkDec (numLevels : Nat) : List (Nat × Nat × Int) :=
+  (0, 0, 0) :: resLoopWith (fun i => Gen.J2kQuantT2.bandWalkStep 0 0 0 0 0 0 i 0) numLevels 1 1
 
 end J2kQuant
